@@ -118,12 +118,12 @@ pub fn wider_texts() -> Vec<(&'static str, String)> {
         "qreg w1[2];", "creg w1[2];", "qreg w1;", "creg w1;",
         "qubit $0;", "h $0;", "cx $0, $1;", "reset $0;", "bit w1 = measure $0;", "measure $0;", "barrier $0, $1;", "delay[10ns] $0;", "let w1 = $0;",
         "1;", "1.5;", "true;", "\"0101\";", "10ns;", "2.5us;", "3µs;", "1ms;", "4s;", "5dt;", "2im;", "2.5im;", "0b101;", "0xFF;", "0o17;", "1_000;", "1e3;", ".5;", "5.;",
-        "340282366920938463463374607431768211455;", "340282366920938463463374607431768211456;", "0b2;", "0o9;", "0xg;", "1e400;",
+        "340282366920938463463374607431768211455;", "340282366920938463463374607431768211456;", "0b2;", "0o9;", "0xg;", "1e400;", "0B;", "0X_;", "0O;", "0B2;", "0XG;",
         "int[8] w1 = 340282366920938463463374607431768211456;",
         "a;", "r;", "q[0];", "q[0:1];", "m[{0, 1}];", "m[0][1];", "a[0];", "f1;", "g1;", "pi;", "U;",
         "f1(a, b);", "f1(a);", "f1();", "f1(a, b, c);", "nosuch(1);", "nosuch();", "a(1);", "r(1);", "g1(1);", "3(1);", "f1(f1(a, b), c);",
         "g1 r;", "g1 a;", "g1 nosuch;", "nosuch r;", "a r;", "f1 r;", "h r, r;", "h;", "rx r;", "rx(1, 2) r;", "U r;", "h q;", "cx q, r;",
-        "gphase(0.5);", "gphase(a);", "gphase();", "inv @ gphase(0.5);", "pow(2) @ inv @ h r;", "ctrl(a) @ x q[0], q[1];", "negctrl @ x r, q[0];", "pow(r) @ h r;",
+        "OPENQASM 3.0;", "OPENQASM 3;", "OPENQASM 2.0;", "include \"stdgates.inc\";", "gphase(0.5);", "gphase(a);", "gphase();", "inv @ gphase(0.5);", "pow(2) @ inv @ h r;", "ctrl(a) @ x q[0], q[1];", "negctrl @ x r, q[0];", "pow(r) @ h r;",
         "barrier;", "barrier a;", "barrier nosuch;", "reset a;", "reset nosuch;", "reset q;", "delay[a] r;", "delay[1] r;", "delay[d];", "delay[nosuch] r;", "delay[10ns] a;",
         "measure a;", "measure nosuch;", "measure q[0:1];", "a = measure r;", "m = measure r;", "k = measure q;", "bit[2] w1 = measure q;",
         "int[8] w1 = 1; int[8] w1 = 2;", "const int w1 = 1; const int w1 = 2;", "const int w1 = 1; w1 = 2;", "const int w1; ", "const int w1 = a;",
@@ -180,6 +180,21 @@ fn wider_space(with_prelude: bool, ctx_depth: usize) -> Box<dyn Space> {
             text = wrap_text(c, &text, (ctx_depth - lvl) as u32);
         }
         (format!("{} {}", pre, text), format!("wider{:?}/{}", cs, tag))
+    }) })
+}
+
+/// Every ordered pair of the wider statements at top level (state left behind by one statement
+/// and met by the next: symbols, pending annotations, version, constants).
+fn wider_pairs(with_prelude: bool) -> Box<dyn Space> {
+    let texts = wider_texts();
+    let n = texts.len() as u64;
+    let name = format!("WIDER/pairs{}", if with_prelude { "/prelude" } else { "" });
+    let desc = json!({"space": "wider grammar, ordered pairs", "statements": n, "prelude": with_prelude});
+    let pre = if with_prelude { text_of(&prelude()) } else { String::new() };
+    Box::new(TextProg { name, count: n * n, desc, gen: Box::new(move |i| {
+        let (a, b) = (&texts[(i / n) as usize], &texts[(i % n) as usize]);
+        let sep = if a.1.ends_with('\n') { "" } else { " " };
+        (format!("{} {}{}{}", pre, a.1, sep, b.1), format!("pair/{}+{}", a.0, b.0))
     }) })
 }
 
@@ -350,6 +365,7 @@ pub fn spaces(tier: Tier, _seed: u64) -> Vec<Box<dyn Space>> {
     v.push(wider_space(true, 0));
     v.push(wider_space(false, 0));
     v.push(wider_space(true, 1));
+    v.push(wider_pairs(true));
     v.push(crate::props::gprog::spines(0, false, true, false, prog_oracle));
     v.push(crate::props::gprog::spines(1, false, true, false, prog_oracle));
     v.push(crate::props::gprog::spines(1, false, false, false, prog_oracle));
